@@ -109,7 +109,7 @@ def build_font(fea_text, glyph_order=None):
     fb.setupHorizontalMetrics({g: (500 + 10 * GLYPHS.index(g), 0) for g in order})
     fb.setupHorizontalHeader(ascent=800, descent=-200)
     fb.setupNameTable({"familyName": "L", "styleName": "R"})
-    fb.setupOS2()
+    fb.setupOS2(sTypoAscender=800, sTypoDescender=-200, usWinAscent=800, usWinDescent=200)
     fb.setupPost(keepGlyphNames=True)
     addOpenTypeFeaturesFromString(fb.font, fea_text)
     buf = io.BytesIO()
